@@ -16,7 +16,7 @@ CLAIMS = {
    note="Trusted: Coq kernel, extraction, harness; fmt %d and bits.Mul64/Div64 are modelled as exact integer arithmetic. The double-rounding defect found by this check was repaired (fix: commit 8ecbac0 in /repo); C12_float_version_refuted documents it.",
    technique="Coq proof on hand-written executable model + differential correspondence + rational oracle"),
  "C16": dict(
-   text="Theorems in Properties/C16.v: parse(serialise(entries)) = entries for every tree entry list (modes < 2^32 printed in octal, names without NUL, 20-byte ids), and totality on arbitrary bytes (never Panic) for the tree, commit, tag, for-each-ref line and cat-file header parsers, on a model that makes every Go slice/index operation partial. Tied to the code by differential runs (generated objects, every truncation, byte mutations) with panic recovery, plus a generator-side round-trip oracle. The header-extraction theorem for commits/tags (continuation lines, message) is checked by the generator oracle but not yet proved.",
+   text="Theorems in Properties/C16.v: parse(serialise(entries)) = entries for every tree entry list (modes < 2^32 printed in octal, names without NUL, 20-byte ids), and totality on arbitrary bytes (never Panic) for the tree, commit, tag, for-each-ref line and cat-file header parsers, on a model that makes every Go slice/index operation partial. Tied to the code by differential runs (generated objects, every truncation, byte mutations) with panic recovery, plus a generator-side round-trip oracle. C16_commit_headers / C16_tag_headers (HeaderProofs.v): for every structured object (header lines with SP/LF-free keys, a line with an empty key being a continuation line of a folded header; optional blank line; arbitrary message) ParseCommit returns exactly the one tree value and the parent values in order, ParseTag the object and type values; nothing is taken from continuation lines or the message.",
    note="Trusted: Coq kernel, extraction, harness; strconv.ParseUint/hex.DecodeString/strings.Split modelled. ParseBatchHeader panicked on short lines before fix ec7f98a (C16_batch_header_old_refuted).",
    technique="Coq proof on hand-written executable model + differential correspondence with fuzzing"),
 
@@ -41,7 +41,7 @@ CLAIMS = {
    note="Trusted: Coq kernel, go2coq+GoSem, extraction, harness, fakegit. Go's regexp/syntax is modelled for a fragment (literals, ., classes, * + ?, alternation, groups) on ASCII names; patterns outside it are only exercised, not proved. pflag's in-order option processing is observed through the CLI. The alternation-anchoring defect was repaired (a9db31e).",
    technique="Coq proof on executable model + translator bridge + differential correspondence"),
  "C07": dict(
-   text="Theorems C07_unwalked, C07_walked, C07_group_tallied_iff_matches on the model of collectSymbols/Categorize (nested refgroup forests built from gitconfig with implicit parents); reference_count is part of scan_correct. Tie: CLI JSON v1 reference_groups, JSON v2 refgroup.* and the verbose table for generated forests up to 14 levels deep. The full declarative characterisation of every tallied symbol is checked by the correspondence (model = code) but proved only in the parts listed; rendering totality is checked by running -v on deep forests (panic repaired in 063ce9f).",
+   text="Theorems C07_unwalked, C07_walked, C07_group_tallied_iff_matches on the model of collectSymbols/Categorize (nested refgroup forests built from gitconfig with implicit parents); reference_count is part of scan_correct. Tie: CLI JSON v1 reference_groups, JSON v2 refgroup.* and the verbose table for generated forests up to 14 levels deep. C07_tallies_declarative / C07_categorize_declarative (RefTally.v): the symbol list computed by collectSymbols / Categorize equals the declarative `tallies` (own symbol, subgroups' tallies, Other bucket iff a ruled group has subgroups none of which matched; rule-less group = union of its subgroups), C07_member_iff, C07_other_bucket. Rendering totality is checked by running -v on deep forests (panic repaired in 063ce9f).",
    note="Trusted as for C06. Known finding: user groups named ignored/other/<g>.other collide with the synthetic buckets.",
    technique="Coq proof on executable model + differential correspondence through the CLI"),
 
@@ -51,7 +51,7 @@ CLAIMS = {
    technique="Coq proof + translator bridge + differential correspondence with git as reference parser"),
 
  "C11": dict(
-   text="Theorems on the model of sizes/output.go: C11_row_visible / C11_hidden_iff (a row is emitted iff saturated or alert >= threshold), C11_marker (int(alert) stars, 30 '!' above 30 or saturated), C11_monotone (raising the threshold only hides rows, markers unchanged), C11_verbose (threshold <= 0 shows every metric; uses non-negativity of the binary64 model), C11_empty, C11_saturated. Tie: TableString/JSON on synthetic vectors at k*ref-1, k*ref, k*ref+1, caps and zero x 18 thresholds: exact table bytes and exact levelOfConcern vs the model, JSON v2 value = v1 value, sub-sequence check across thresholds.",
+   text="Theorems on the model of sizes/output.go: C11_row_visible / C11_hidden_iff (a row is emitted iff saturated or alert >= threshold), C11_marker (int(alert) stars, 30 '!' above 30 or saturated), C11_monotone (raising the threshold only hides rows, markers unchanged), C11_verbose (threshold <= 0 shows every metric; uses non-negativity of the binary64 model), C11_empty, C11_saturated; C11_real_ratio_refuted: over the REAL ratio value/reference the visibility clause fails within one ulp of the threshold (known finding). Every table is also judged on exact rationals (row count = metrics with value/reference >= threshold or saturated, outside a 2^-50 band). Tie: TableString/JSON on synthetic vectors at k*ref-1, k*ref, k*ref+1, caps and zero x 18 thresholds: exact table bytes and exact levelOfConcern vs the model, JSON v2 value = v1 value, sub-sequence check across thresholds.",
    note="Trusted: Coq kernel, extraction, harness; float64(uint64), binary64 division, ParseFloat and fmt padding are modelled as correctly rounded / documented (Float64.v), validated by exact comparison on every run. Lifting of C11_monotone from items to whole tables (headers, blank rows) is checked by the sub-sequence test, not proved.",
    technique="Coq proof on executable model + differential correspondence on boundary vectors"),
  "C19": dict(
@@ -83,9 +83,9 @@ CLAIMS = {
    technique="Coq proof on invocation-trace model + race detector / repeated runs / directory hashing"),
 
  "C08": dict(
-   text="Theorems C08_witness_hash (every object cited with hash names is the object of a record* call whose value equals the reported maximum; empty slot => maximum 0), C08_none (--names=none cites nothing), C08_slot_value, on the model of setPath / the twelve path slots / InOrderPathResolver as a fold over the scan's event log. Tie and judge: for generated graphs with roots of every kind, the cited ids must be reachable objects of the right kind attaining the reported value (independent python expansion), the description strings must equal the PathResolver model's strings for the same enumeration order (real git order and random legal orders under fakegit), and every description is passed to `git rev-parse --verify` in the same repository and must print the cited id.",
-   note="PARTIAL in the proof: the witness theorem is proved for hash names; for full names the slot/description correspondence (model = code) and resolvability are decided by the differential run and by git as judge, not by a theorem (a git_resolve model was not built). Repaired: '???' descriptions (8ad2c16). Known finding: tree roots joined with '/'.",
-   technique="Coq proof on event-fold model + git rev-parse as judge + model/implementation string comparison"),
+   text="Theorems in Properties/C08.v on the model of setPath / the twelve path slots / InOrderPathResolver as a fold over the scan's event log: C08_witness_hash and C08_witness_full (with hash AND full names every cited object is the object of a record* call whose value equals the reported maximum; empty slot => maximum 0), C08_none, C08_slot_value; C08_events_consistent (every RecordTreeEntry/RecordCommit/RecordName call of the scan is a true fact about the repository, via an invariant of the deferred machine's listener lists and log, no assumption on the enumeration); C08_descriptions_resolve: the description built for every cited path is empty or resolves to exactly the cited object under Resolve.resolves, a stated model of the four `git rev-parse` spellings the descriptions use (atomic root name, 40-digit id, <rev>^{tree}, <rev>:<path> walked through trees), under the guards: no named root is a tree, commit-root names without ':', entry names unique / non-empty / not . or .. . Tie and judge: generated graphs with roots of every kind under all three name styles; cited ids must be reachable objects of the right kind attaining the value (independent python expansion); description strings compared with the model's for git's own enumeration and random legal orders; every description is passed to `git rev-parse --verify` in the same repository and must print the cited id (git is the judge of the resolves model).",
+   note="PARTIAL: `git rev-parse` is represented by a stated four-rule model, validated against real git on every run, not derived from git's source. Repaired: '???' descriptions (8ad2c16). Known finding: tree roots joined with '/' (exactly the case excluded by the guard no_tree_names).",
+   technique="Coq proof (resolver link invariant, pigeonhole bound on parent chains, byte-exact rendering) + git rev-parse as judge + model/implementation string comparison"),
 }
 
 m = {
